@@ -2,6 +2,7 @@ import Femio.Driver.Proto
 import Femio.Model.UcdText
 import Femio.Model.UcdFem
 import Femio.Model.UcdHist
+import Femio.Model.UcdAlignInt
 /-! driver commands for C04 (AVS UCD)
 
 ```
@@ -18,6 +19,8 @@ c04.ws            -> ok list(nat)                       -- the lexer's whitespac
 c04.session <fromPublicViews 0|1> list(step)  -> ok list(nat text)
       -- step := a <fem> | i <fem> | w <path: nat>   (`Step.assign`, `Step.inplace`, `Step.write` of `Model/UcdHist.lean`)
       -- reply: `currentFiles` of the session run from the empty object: every path written, with its final content
+c04.align <byKey 0|1> <own ids: list(int)> <mesh ids: list(int)>  -> ok list(opt nat)
+      -- `alignPositions` (`Model/UcdAlignInt.lean`): per mesh id the position of the row `_align_data` puts next to it
 ``` -/
 namespace Femio.C04
 open Femio.Proto Ucd Femio.Text
@@ -64,6 +67,9 @@ def handle : List String → Option String
     let (pv, steps) ← run (do let pv ← bool; let st ← listOf stepP; pure (pv, st)) rest
     let s := runSteps ⟨pv⟩ ⟨⟨emptyFem, emptyFem⟩, []⟩ steps
     some ("ok " ++ showList (fun (q : Nat × Str) => s!"{q.1} {escape q.2}") (currentFiles s.files))
+  | "c04.align" :: rest => do
+    let (k, own, mesh) ← run (do let k ← bool; let a ← listOf int; let b ← listOf int; pure (k, a, b)) rest
+    some ("ok " ++ showList (showOpt toString) (alignPositions ⟨k⟩ own mesh))
   | ["c04.ws"] => some ("ok " ++ showList toString wsCodes)
   | _ => none
 
